@@ -671,6 +671,10 @@ fn multisig(state: &mut State, txscript: &mut TxScript) -> Result<bool, Interpre
         return Err(InterpreterError::InvalidStackOperation("PubKey count must be a positive number"));
     }
 
+    if pubkey_count as usize > state.stack.len() {
+        return Err(InterpreterError::InvalidStackOperation("PubKey count exceeds the number of stack items"));
+    }
+
     // Slice the correct amount of pubkeys off the stack in reverse order so we can pop them.
     let mut pubkeys = state.stack.split_off(state.stack.len() - pubkey_count as usize);
     pubkeys.reverse();
@@ -684,6 +688,10 @@ fn multisig(state: &mut State, txscript: &mut TxScript) -> Result<bool, Interpre
 
     if pubkey_count < sig_count {
         return Err(InterpreterError::InvalidStackOperation("PubKey count must be greater than or equal to Signature count"));
+    }
+
+    if sig_count as usize > state.stack.len() {
+        return Err(InterpreterError::InvalidStackOperation("Signature count exceeds the number of stack items"));
     }
 
     let sigs = state.stack.split_off(state.stack.len() - sig_count as usize);
@@ -729,7 +737,12 @@ fn calculate_sighash_preimage(txscript: &mut TxScript, sighash: SigHash, codesep
     let unlock_script_len = txin.get_unlocking_script().to_script_bits().len();
     let script_offset = codeseparator_offset.saturating_sub(unlock_script_len);
     let unsigned_script = match txin.get_locking_script() {
-        Some(v) => Script::from_script_bits(v.to_script_bits()[script_offset..].to_vec()),
+        Some(v) => {
+            let script_bits = v.to_script_bits();
+            // The offset counts executed elements and lies beyond the locking script when a conditional branch ran before the separator
+            let script_offset = script_offset.min(script_bits.len());
+            Script::from_script_bits(script_bits[script_offset..].to_vec())
+        }
         None => return Err(InterpreterError::InvalidStackOperation("TxIn at given index does not have locking script provided")),
     };
     println!("Unsigned script: {}", unsigned_script.to_asm_string());
